@@ -1,6 +1,7 @@
 package checks
 
 import (
+	"bytes"
 	"encoding/json"
 	"fmt"
 	"time"
@@ -141,6 +142,14 @@ func c07(tier string, args []string) int {
 		job{n: 3, t: 2, cfgs: failingFirstCfgs(3, 2, two)},
 		job{n: 3, t: 2, cfgs: mk(3, 2, two, [][]int{nil, {2}}, none), aged: true},
 	)
+	// a batch whose proposal and answers fit on the board while the broadcast of the reconstructed
+	// signatures (which repeats every payload) does not fit into one board line
+	var bigTasks []requests.SigningTask
+	for i := 0; i < 96; i++ {
+		pl := bytes.Repeat([]byte{byte('a' + i%26)}, 5950)
+		bigTasks = append(bigTasks, requests.SigningTask{MessageID: fmt.Sprintf("big-%02d", i), File: fmt.Sprintf("file-%02d", i), Payload: pl})
+	}
+	jobs = append(jobs, job{n: 3, t: 2, cfgs: mk(3, 2, []Batch{{ID: "batch-big", Tasks: bigTasks}, b2}, [][]int{nil}, none)})
 	if tier == "thorough" {
 		jobs = append(jobs,
 			job{n: 3, t: 2, cfgs: mk(3, 2, []Batch{b1, b2, b3}, [][]int{nil}, none)},
